@@ -173,9 +173,9 @@ def declared_dims(text, schema):
     toks = [t.upper() for t in _NEXUS_TOKEN.findall(stripped)]
     if toks.count("MATRIX") != 1 or toks.count("NTAX") != 1 or toks.count("NCHAR") != 1:
         return None
-    if toks.count("DIMENSIONS") > 2 or "BEGIN" not in toks:
-        return None
     mpos = toks.index("MATRIX")
+    if toks.count("DIMENSIONS") > 2 or "BEGIN" not in toks[:mpos]:
+        return None
     vals = {}
     for key in ("NTAX", "NCHAR"):
         p = toks.index(key)
@@ -281,6 +281,18 @@ def reader_frame(exc):
     return best or anylib
 
 
+def recursing_function(exc):
+    """the dendropy function with most frames on the traceback"""
+    counts = {}
+    tb = exc.__traceback__
+    while tb is not None:
+        code = tb.tb_frame.f_code
+        if "/dendropy/" in code.co_filename:
+            counts[code.co_name] = counts.get(code.co_name, 0) + 1
+        tb = tb.tb_next
+    return max(sorted(counts), key=counts.get) if counts else None
+
+
 def run_route(ctx, route, text, schema, kwargs, matrix_type, dims, valid=False):
     """Returns (outcome, result or None).  Violations go through ctx.fail with a root-cause key."""
     from dendropy.utility.error import DataParseError
@@ -299,9 +311,11 @@ def run_route(ctx, route, text, schema, kwargs, matrix_type, dims, valid=False):
     except RecursionError as e:
         if reader_frame(e) is None:
             raise
+        where = recursing_function(e)
         ctx.cls("%s:RecursionError" % schema)
-        ctx.fail(clause, "C20:%s:RecursionError" % schema, "route %s: RecursionError on text of %d chars starting %r" % (
-            route, len(text), text[:60]))
+        ctx.fail(clause, "C20:%s:RecursionError@%s" % (schema, where),
+                 "route %s: RecursionError (recursing in %s) on text of %d chars starting %r" % (
+                     route, where, len(text), text[:60]))
         return "internal_error", None
     except Exception as e:
         best, last = runner.innermost_dendropy_frame(e)
@@ -521,6 +535,8 @@ def deep_text(case):
         core = "(" * d + "A" + "".join(",t%d)" % i for i in range(d))
     elif kind == "open":
         core = "(" * d + "A"
+    elif kind == "comments":
+        core = "[c] " * d + "(A,B)"
     else:
         raise runner.HarnessError(kind)
     if case["schema"] == "nexus":
@@ -529,7 +545,7 @@ def deep_text(case):
 
 
 def sub_deep(ctx, case):
-    """case: {"kind": "nest"|"caterpillar"|"open", "depth": int, "schema": "newick"|"nexus"}"""
+    """case: {"kind": "nest"|"caterpillar"|"open"|"comments", "depth": int, "schema": "newick"|"nexus"}"""
     text = deep_text(case)
     ctx.cls("deep:%s:%d" % (case["kind"], case["depth"]))
     run_text(ctx, text, case["schema"], {}, None)
@@ -642,6 +658,6 @@ def run(ctx):
     runner.run_given(ctx, "soup", soup_cases(), sub_soup, per(tot["soup"]))
 
     # (4) deep nesting (fixed list)
-    deep = [{"kind": k, "depth": d, "schema": s} for s in ("newick", "nexus") for k in ("nest", "caterpillar", "open")
+    deep = [{"kind": k, "depth": d, "schema": s} for s in ("newick", "nexus") for k in ("nest", "caterpillar", "open", "comments")
             for d in DEEP_DEPTHS]
     runner.run_items(ctx, "deep", deep, sub_deep)
